@@ -466,4 +466,49 @@ theorem header_table_live :
 
 example : CpModel.Gen.C17.headerTable.length = 20 := by decide
 
+/-! ## file-like bodies with short reads -/
+
+/-- **Lossless for every read pattern**: whatever sizes the reads have, as long as only end of file
+    reads empty, `file_generator` yields all of them (a short read is not the end) -/
+theorem fileGen_lossless (reads : List Bytes) (h : ∀ r ∈ reads, r ≠ []) : fileGen reads = reads := by
+  induction reads with
+  | nil => rfl
+  | cons r rs ih =>
+    have hr : r ≠ [] := h r List.mem_cons_self
+    simp only [fileGen, hr, if_false]
+    rw [ih (fun x hx => h x (List.mem_cons_of_mem _ hx))]
+
+/-- … and it stops at end of file -/
+theorem fileGen_eof (reads rest : List Bytes) (h : ∀ r ∈ reads, r ≠ []) :
+    fileGen (reads ++ [] :: rest) = reads := by
+  induction reads with
+  | nil => simp [fileGen]
+  | cons r rs ih =>
+    have hr : r ≠ [] := h r List.mem_cons_self
+    simp only [List.cons_append, fileGen, hr, if_false]
+    rw [ih (fun x hx => h x (List.mem_cons_of_mem _ hx))]
+
+/-- `file_generator_limited` with `count` = the length of the data: all reads are yielded -/
+theorem fileGenLimited_lossless (reads : List Bytes) (h : ∀ r ∈ reads, r ≠ []) :
+    fileGenLimited reads.flatten.length reads = reads := by
+  induction reads with
+  | nil => rfl
+  | cons r rs ih =>
+    have hr : r ≠ [] := h r List.mem_cons_self
+    have hl : 0 < r.length := List.length_pos_iff.mpr hr
+    have h0 : ¬ (r ++ rs.flatten).length = 0 := by simp only [List.length_append]; omega
+    simp only [fileGenLimited, List.flatten_cons, h0, hr, if_false]
+    have : (r ++ rs.flatten).length - r.length = rs.flatten.length := by simp
+    rw [this, ih (fun x hx => h x (List.mem_cons_of_mem _ hx))]
+
+/-- a file-like body under the gzip tool: the member unpacks to the whole content, for every read pattern -/
+theorem C17_file_body_roundtrip (z : Z) (hz : z.Lawful) (level mtime : Nat) (reads rest : List Bytes)
+    (h : ∀ r ∈ reads, r ≠ []) :
+    gunzip z (member z level mtime (fileGen (reads ++ [] :: rest))) = some reads.flatten := by
+  rw [fileGen_eof reads rest h]
+  exact C17_gzip_roundtrip z hz level mtime reads
+
+example : fileGen [[1], [2, 3], [], [4]] = [[1], [2, 3]] := by decide
+example : fileGenLimited 2 [[1], [2, 3], [4]] = [[1], [2, 3]] := by decide
+
 end CpProofs.C17
